@@ -19,7 +19,7 @@ EXPLANATION = (
     'lock region as the write; (c) status guards exist; (d) read-modify-write '
     'of generator counters is under a lock on every path from a worker entry '
     'point.  Necessary conditions for exactly-once; schedules are not explored.')
-FLOORS = {'C16.a': 6, 'C16.b': 2, 'C16.c': 1, 'C16.d': 1}
+FLOORS = {'C16.a': 6, 'C16.b': 2, 'C16.c': 1, 'C16.d': 1, 'C16.e': 2}
 FILES = ['pyglove/core/tuning/local_backend.py', 'pyglove/core/tuning/sample.py',
          'pyglove/core/tuning/protocols.py', 'pyglove/core/tuning/backend.py',
          'pyglove/core/geno/dna_generator.py', 'pyglove/ext/evolution/base.py']
@@ -400,6 +400,50 @@ def rule_d(ctx):
          'concurrent feedbacks lose updates')
 
 
+GROUP_FILES = ('pyglove/core/tuning/sample.py', 'pyglove/core/tuning/backend.py',
+               'pyglove/core/tuning/local_backend.py')
+
+
+def rule_e(ctx):
+  """Worker-group identity: group ids are ints or strings, 0 and '' included.
+  Whether a group was given is decided with `is None`; the id is handed to the
+  backend unchanged, so two workers passing the same id land in one group."""
+  idx = ctx.index
+  ctx.consult(*GROUP_FILES)
+  n = 0
+  for rel in GROUP_FILES:
+    m = idx.by_relpath.get(rel)
+    if m is None:
+      continue
+    for f in m.funcs.values():
+      ps = [p for p in A.param_names(f.node) if p in ('group', 'group_id')]
+      if not ps:
+        continue
+      g = C.cfg_of(f.node)
+      bad = []
+      for k in g.nodes:
+        if k.kind == 'test' and isinstance(k.ast, ast.Name) and k.ast.id in ps:
+          bad.append(f'`{A.unparse(k.ast)}` tested by truth value (line {k.lineno})')
+      # redefinitions other than "None -> per-thread id"
+      for p in ps:
+        for dn, val in [(nd, D.node_defs(nd).get(p)) for nd in g.nodes if p in D.node_defs(nd)]:
+          if val is None:
+            continue
+          # allowed: assignment under `p is None`
+          tests = [t for t in g.nodes if t.kind == 'test' and A.unparse(t.ast) == f'{p} is None']
+          blocked = {(t.id, m2.id, l) for t in tests for m2, l in t.succ if l == 'true'}
+          seen, _ = g.reach(g.entry, blocked_edges=blocked, follow_exc=False)
+          if dn.id in seen:
+            bad.append(f'`{p}` is rewritten as `{A.unparse(val, 60)}` (line {dn.lineno}) also when a group was given')
+      n += 1
+      ctx.ob('C16.e', f.fq, not bad,
+             'a given group id (including 0 and the empty string) reaches the backend unchanged; only None means '
+             '"no group"', f.loc, '; '.join(bad) + ': co-workers that pass such an id are split into per-thread groups '
+             'and are handed different trials')
+  if n < 2:
+    raise AnalysisError(f'only {n} functions take a group id')
+
+
 def run(ctx):
   ctx.consult(*FILES)
   discover_locks(ctx.index)
@@ -408,5 +452,6 @@ def run(ctx):
   rule_b(ctx)
   rule_c(ctx)
   rule_d(ctx)
+  rule_e(ctx)
   ctx.assume('setup-time methods (__init__, _on_bound, setup, recover) run before workers start')
   ctx.assume('atomicity by construction is necessary, not sufficient, for exactly-once')
